@@ -330,7 +330,10 @@ def run(run, tier, loadcfg):
     run.explanation = __doc__
     run.assumptions = ['floating-point rounding ignored in the Hann identity; Hann range/symmetry follow from the formula (paper)']
     for cfg in ['std-debug'] + (['nostd'] if tier == 'thorough' else []):
-        cx = Ctx(loadcfg(cfg))
+        fx_ = loadcfg(cfg, optional=(cfg == 'nostd'))
+        if fx_ is None:
+            continue
+        cx = Ctx(fx_)
         check_shapes(run, cx, cfg)
         check_window_iter(run, cx, cfg)
         check_windower(run, cx, cfg)
